@@ -2,6 +2,7 @@ package main
 
 import (
 	"fmt"
+	"reflect"
 	"math/rand"
 	"net"
 	"sort"
@@ -308,6 +309,56 @@ func packetWith(code uint8, raw []byte) (*dhcpv4.DHCPv4, bool) {
 	return q, true
 }
 
+// rawAcc calls the accessor of that name through reflection and returns what it returned (for the caller to use, and
+// misuse, as a consumer may: the values belong to the consumer)
+func rawAcc(name string, p *dhcpv4.DHCPv4) []reflect.Value {
+	m := reflect.ValueOf(p).MethodByName(name)
+	if !m.IsValid() {
+		return nil
+	}
+	var args []reflect.Value
+	for i := 0; i < m.Type().NumIn(); i++ {
+		args = append(args, reflect.Zero(m.Type().In(i)))
+	}
+	defer func() { recover() }()
+	return m.Call(args)
+}
+
+// scribbleValue overwrites every byte the value can reach through slices, pointers and maps
+func scribbleValue(v reflect.Value, depth int) {
+	if depth > 6 || !v.IsValid() {
+		return
+	}
+	switch v.Kind() {
+	case reflect.Ptr, reflect.Interface:
+		if !v.IsNil() {
+			scribbleValue(v.Elem(), depth+1)
+		}
+	case reflect.Slice:
+		if v.Type().Elem().Kind() == reflect.Uint8 {
+			for i := 0; i < v.Len(); i++ {
+				if v.Index(i).CanSet() {
+					v.Index(i).SetUint(uint64(0xA5 ^ byte(i)))
+				}
+			}
+			return
+		}
+		for i := 0; i < v.Len(); i++ {
+			scribbleValue(v.Index(i), depth+1)
+		}
+	case reflect.Struct:
+		for i := 0; i < v.NumField(); i++ {
+			if v.Type().Field(i).IsExported() {
+				scribbleValue(v.Field(i), depth+1)
+			}
+		}
+	case reflect.Map:
+		for _, k := range v.MapKeys() {
+			scribbleValue(v.MapIndex(k), depth+1)
+		}
+	}
+}
+
 func callAcc(a accessor, p *dhcpv4.DHCPv4) (res map[string]any) {
 	defer func() {
 		if r := recover(); r != nil {
@@ -348,6 +399,19 @@ func genC17(o *Out, rng *rand.Rand, tier string) {
 				}
 				o.Emit(map[string]any{"op": "Acc", "acc": a.name, "absent": false, "raw": B(raw), "res": callAcc(a, q)}, "raw-"+a.name,
 					append([]byte(a.name), raw...), true)
+				// what an accessor hands out is the consumer's: the consumer overwrites it, and the reading of the option -
+				// from this packet and from another packet that carries the same bytes - is still the RFC's
+				if k >= 2 && L > 0 && L%3 == 0 {
+					for _, rv := range rawAcc(a.name, q) {
+						scribbleValue(rv, 0)
+					}
+					o.Emit(map[string]any{"op": "Acc", "acc": a.name, "absent": false, "raw": B(raw), "res": callAcc(a, q)}, "after-result-overwritten",
+						append([]byte("own1"+a.name), raw...), true)
+					if q2, ok := packetWith(a.code, raw); ok {
+						o.Emit(map[string]any{"op": "Acc", "acc": a.name, "absent": false, "raw": B(raw), "res": callAcc(a, q2)}, "after-result-overwritten",
+							append([]byte("own2"+a.name), raw...), true)
+					}
+				}
 			}
 		}
 		// long values travel as several instances
